@@ -303,7 +303,11 @@ def run(tier):
     s2 = z3.Solver()
     s2.add(*ex.assumptions)
     bad = []
+    t_val, n_val = time.time(), 0
     for line, r_n in zip(lines, got):
+        if n_val >= 40 and time.time() - t_val > (120 if tier == 'quick' else 300):
+            break           # big encodings: every comparison is a solver call; the sample is time-boxed
+        n_val += 1
         cons = []
         try:
             parts = line.split(' ')
@@ -340,7 +344,7 @@ def run(tier):
     wall = time.time() - t0
     cov = {
         'states': max(1, int(ex.stats['blocks'])), 'transitions': max(1, len(queries)),
-        'traces_validated_against_impl': len(lines), 'samples': queries,
+        'traces_validated_against_impl': n_val, 'samples': queries,
         'explanation': 'syntax::Analyzable for FunctionBody/Block/Statement symbolically executed from MIR on a symbolic function '
                        'body: statement trees of nesting depth <= %d with up to %d statements per body/block (symbolic lengths), '
                        'all nine statement kinds, if/else shapes and already-poisoned statements; the output tree is compared '
@@ -357,7 +361,7 @@ def run(tier):
                    ['rustc nightly MIR dump', 'mirsym and its models (owned Vec iteration: into_iter/map/collect, pop, push; Box; Option::map)',
                     'native validation through the guarded hook analyzer::verif_syntax_analyze'], violations=len(out_v))
     log('%s: depth %d width %d, %d queries (%d unsat), %d native comparisons, exec %.1fs, solver %.1fs, wall %.1fs'
-        % (PROP, depth, width, len(queries), cov['queries_unsat'], len(lines), exec_s, solver_s, wall))
+        % (PROP, depth, width, len(queries), cov['queries_unsat'], n_val, exec_s, solver_s, wall))
     for what, rp in out_v:
         log('VIOLATION property=%s replay=%s' % (PROP, rp))
         log('  ' + what)
